@@ -1925,6 +1925,10 @@ class Interp:
 
     def compare(self, op: str, l: T, r: T) -> T:
         lu, ru = self.unname(l), self.unname(r)
+        if op in ("Eq", "NotEq") and lu.op in ("const", "enum") and \
+                ru.op not in ("const", "enum"):
+            # "kitti" == x reads x == "kitti": the constant on the right
+            l, r, lu, ru = r, l, ru, lu
         if op in ("In", "NotIn"):
             # frozenset({...}) / set([...]) / tuple([...]) of a literal
             # collection has that collection's members
@@ -2510,6 +2514,10 @@ class Interp:
             val = self.do_call(fu if fu.op in ("closure", "func") else
                                args[0], [el], [], node, frame, live)
             return T("comp", "gen", val, ((args[1], lid),), ())
+        if name == "builtins.dict" and not args and kwargs and \
+                all(k != "**" for k, _ in kwargs):
+            # dict(a=x, b=y) is the literal {"a": x, "b": y}
+            return T("dict", *[(const(k), v) for k, v in kwargs])
         if name == "builtins.bool" and len(args) == 1 and not kwargs and \
                 tm.is_const(self.unname(args[0])) and isinstance(
                     tm.const_val(self.unname(args[0])),
